@@ -17,10 +17,13 @@ TYPES = {
     'R': ('O', [('P', 'i', 's'), ('V', ['i', 's']), ('T', ['i', 'i'])]),
     'E': ('O', []),
     'N': ('O', ['c', 'u', 'l', 'b', 'f']),
+    'M': ('O', ['a', 'g', 'm', 'e', 'j', 'w', 'x', 'y']),   # char, unsigned short, unsigned long long, long double, char32_t, wide strings
+    'M2': ('T', ['k', 'n', 'o', 'q']),                      # unsigned char, long, wchar_t, char16_t
     'T3': ('T', ['i', 's', 'd']),
     'T0': ('T', []),
     'T1': ('T', ['s']),
     'TI2': ('T', ['i', 'i']),
+    'TI3': ('T', ['i', 'i', 'i']),   # zero-hash components at every position, swaps of any two
     'TN': ('T', ['h', ('T', ['i', 's']), P]),
     'PR': ('P', 'i', 's'),
     'PI2': ('P', 'i', 'i'),
@@ -37,7 +40,7 @@ TYPES = {
     'OV': ('O', [VT, 'i']),
     'UV': ('U', VT),
 }
-TUPLE_OPERATORS_TYPES = ('P', 'Q', 'R', 'E', 'N', 'OV')
+TUPLE_OPERATORS_TYPES = ('P', 'Q', 'R', 'E', 'N', 'M', 'OV')
 POINTER_TYPES = ('UP', 'SQ', 'TU', 'PV', 'UV')
 
 def hx(s):
@@ -53,6 +56,18 @@ GRID_QUICK = {
     'l': ['-1', '0', '1099511627776'],
     'b': ['0', '1'],
     'f': ['-0.0', '0.0', '1.5'],
+    'a': ['-1', '0', '97'],
+    'k': ['0', '255'],
+    'g': ['0', '1', '65535'],
+    'n': ['-1', '0', '1099511627776'],
+    'm': ['0', '1', '4611686018427387903'],
+    'o': ['0', '97'],
+    'q': ['0', '65535'],
+    'j': ['0', '97', '1114111'],
+    'e': ['-0.0', '0.0', '1.5'],
+    'w': [hx(x) for x in ['', 'a', 'ab']],
+    'x': [hx(x) for x in ['', 'a', 'ab']],
+    'y': [hx(x) for x in ['', 'a', 'ab']],
 }
 GRID_THOROUGH = dict(GRID_QUICK)
 GRID_THOROUGH.update({
@@ -380,7 +395,7 @@ class C16(Check):
                 for y in qv:
                     yield "p Q %s %s" % (W(x), W(y)), "pair-exh-Q"
         # all ordered pairs of the small homogeneous types (swap sensitivity) and of the empty ones
-        for t in ('TI2', 'PI2', 'T0', 'E', 'T1', 'VT'):
+        for t in ('TI2', 'PI2', 'T0', 'E', 'T1', 'VT', 'TI3'):
             vs = all_values(TYPES[t], grid)
             for x in vs:
                 for y in vs:
@@ -524,7 +539,7 @@ class C16(Check):
             # replace one leaf by the shortest leaf of its kind
             t = self.table()
             for k in range(3 if w[0] == "h" else 2, 5 if w[0] == "h" else len(w)):
-                for m in re.finditer(r"([chiulbfds])([^,();#]+)#[0-9a-f]{16}", w[k]):
+                for m in re.finditer(r"([chiulbfdsakgnmoqjewxy])([^,();#]+)#[0-9a-f]{16}", w[k]):
                     short = m.group(1) + SHORTEST[m.group(1)]
                     if len(short) < len(m.group(1) + m.group(2)):
                         yield " ".join(w[:k] + [w[k][:m.start()] + short + "#" + t[short] + w[k][m.end():]] + w[k + 1:])
